@@ -480,6 +480,24 @@ def callWithObject (m : Meth) (r : Recv) (sc : Script) : Out × Str :=
       | (.thrown, st) => (.thrown, st.log)
       | (.typeError, st) => (.typeError, st.log)
 
+
+/-- §15.1.2.2 with object arguments: step 1 ToString(string) (toString of the object; an exception ends the
+    call), step 6 ToInt32(radix) = ToInt32(ToNumber(radix)) — for EVERY string, also one without digits —
+    then steps 2–5, 7–16 on the string -/
+def parseIntWithObjects (sa : StrArg) (sc : Script) : POut × Str :=
+  match sa with
+  | .throws => (.thrown, [83])
+  | .prim s =>
+    (match toNumberObj sc ⟨0, 0, []⟩ with
+     | (.val v, st) => (.num (parseInt s (.num v)), st.log)
+     | (.thrown, st) => (.thrown, st.log)
+     | (.typeError, st) => (.typeError, st.log))
+  | .obj s =>
+    (match toNumberObj sc ⟨0, 0, [83]⟩ with
+     | (.val v, st) => (.num (parseInt s (.num v)), st.log)
+     | (.thrown, st) => (.thrown, st.log)
+     | (.typeError, st) => (.typeError, st.log))
+
 /-! ### deviation regions: decidable predicates over the REQUEST (never model ≠ spec) -/
 namespace Dev
 
